@@ -260,6 +260,7 @@ def run_symbolic(spec):
             names, fn, domain=dom, on_leaf=on_leaf,
             max_paths=spec.get("max_paths", 20000), time_budget=spec.get("time_budget"),
             raw=getattr(scn, "raw", False), timeout_ms=getattr(scn, "timeout_ms", 10000),
+            seed_env=[Fraction(v) for v in scn.seed()] if hasattr(scn, "seed") else None,
             max_decisions=getattr(scn, "max_decisions", 20000), path_timeout=getattr(scn, "path_timeout", 120), max_degree=getattr(scn, "max_degree", 6),
         )
         res["stats"] = stats
